@@ -2,8 +2,11 @@
 
 Part 1 (tableau algebra, z3 on exact rational polynomials):  R(z) = P(z)/Q(z), Q = det(I - zA), P = det(I - zA + z 1 b^T)
 built at run time from the class attributes of every class in desolver.integrators.implicit_methods().
-Part 2 (real code): RungeKuttaIntegrator.step / algebraic_system executed symbolically on y' = lambda*y and on the 2x2
-damped-rotation block with the exact_root stub; Q(z)*(y + dState) == P(z)*y.
+Part 2 (real code): RungeKuttaIntegrator.step / algebraic_system executed symbolically on y' = lambda*y, on the 2x2
+damped-rotation block and on a diagonal pair with the exact_root stub; Q(z)*(y + dState) == P(z)*y.
+
+Instances: <Class>-halfplane-direct (two-variable queries, <= 3 stages), <Class>-axis-hurwitz (axis, rays, Hermite-Biehler
+certificate), <Class>-step-scalar / -step-block2 / -step-diag2 (the real step).  Candidates are replayed by replay() below.
 """
 from __future__ import annotations
 
@@ -65,11 +68,13 @@ ASSUMPTIONS = [
 BOUNDS = {
     "quick": dict(classes="all 16 of implicit_methods()", z="all z = x + i w with x <= 0, |z| unbounded",
                   two_variable_queries="the 15 classes with <= 3 stages", hermite_biehler_and_axis="every class", slack="1e-9 relative on |R|^2",
+                  one_variable_slices="negative real axis, every class",
                   step_agreement="one step; shape (1,) scalar, shape (2,) rotation block and diagonal pair, every class; symbolic t, h (any sign, "
                                  "0 included), y, lambda / a, b / l0, l1"),
     "thorough": dict(classes="all 16 of implicit_methods()", z="all z = x + i w with x <= 0, |z| unbounded",
                      two_variable_queries="the 15 classes with <= 3 stages, additionally with slack 1e-12", hermite_biehler_and_axis="every class, "
                      "axis additionally with slack 1e-12", slack="1e-9 relative on |R|^2 (claimed), 1e-12 (additional obligations)",
+                     one_variable_slices="rays z = -r(1 + i k), k in {0, 1/4, 1, 4, 32}, every class",
                      step_agreement="as quick, plus a second consecutive step from the state reached (scalar: every class; block: <= 3 stages)"),
 }
 OUTSIDE = [
@@ -222,6 +227,7 @@ def instances(tier):
                             budget=dict(wall_s=60 if not thorough else 400, max_paths=4,
                                         solver_timeout_ms=20000 if not thorough else 180000)))
         out.append(dict(id="%s-axis-hurwitz" % n, cls=n, kind="axis_hb", hb_timeout_ms=30000 if not thorough else 300000, tight=thorough,
+                        rays=[[0, 1]] if not thorough else [[0, 1], [1, 4], [1, 1], [4, 1], [32, 1]],
                         budget=dict(wall_s=60 if not thorough else 400, max_paths=4, solver_timeout_ms=20000 if not thorough else 120000)))
         bs = dict(wall_s=60 if not thorough else 300, max_paths=200)
         out.append(dict(id="%s-step-scalar" % n, cls=n, kind="step", system="scalar", shape=[1], steps=2 if thorough else 1,
@@ -395,6 +401,14 @@ def _scn_axis_hb(c, inst, d):
     if inst.get("tight"):
         c.check("c11.axis.R_bounded_by_one.slack_1e-12", ~(as_real(P2) > (1 + TIGHT) * Q2),
                 info=dict(cls=cls, what="|P(iw)|^2 <= (1+1e-12)|Q(iw)|^2"))
+    # one-variable slices of the half-plane claim (direct cross-checks of the Hermite-Biehler / maximum-modulus branch, the only direct
+    # evidence off the axis for RadauIIA19): the rays z = -r*(1 + i*k), r >= 0, for the slopes k listed in the instance (k = 0: real axis)
+    for idx, (kn, kd) in enumerate(inst.get("rays", [])):
+        r = c.real("r%d" % idx)
+        c.assume(r >= 0)
+        zr = (-r, -r * F(kn, kd))
+        c.check("c11.ray%d.R_bounded_by_one" % idx, ~(as_real(_abs2(_cpoly(c, d["P"], zr))) > (1 + SLACK) * _abs2(_cpoly(c, d["Q"], zr))),
+                info=dict(cls=cls, slope="%d/%d" % (kn, kd), what="|P(z)|^2 <= (1+1e-9)|Q(z)|^2 on z = -r(1 + i*slope), r >= 0"))
     c.check("c11.infinity.degP_le_degQ", len(d["P"]) <= len(d["Q"]), info=dict(cls=cls, degP=len(d["P"]) - 1, degQ=len(d["Q"]) - 1))
     if c.replaying:
         return
@@ -630,15 +644,21 @@ def replay(inst, witness, check_name):
         return dict(reproduced=check_name in cc.failed, failed=sorted(set(cc.failed)), notes={k: repr(v)[:300] for k, v in cc.notes.items()})
     x = float(F(witness.get("x", "0"))) if kind == "direct" else 0.0
     w = float(np.sqrt(max(0.0, float(F(witness.get("u", "0"))))))
+    if check_name.startswith("c11.ray"):
+        idx = int(check_name[len("c11.ray"):].split(".")[0])
+        kn, kd = inst["rays"][idx]
+        r = float(F(witness.get("r%d" % idx, "0")))
+        x, w = -r, -r * kn / kd
     z = complex(x, w)
     out = dict(z=[x, w])
-    if check_name.endswith("R_bounded_by_one"):
+    if "R_bounded_by_one" in check_name:
+        slack = float(TIGHT) if check_name.endswith("slack_1e-12") else float(SLACK)
         R = _R_float(d, z)
         out["abs_R"] = float(abs(R))
         Pz = sum(float(p) * z ** k for k, p in enumerate(d["P"]))
         Qz = sum(float(q) * z ** k for k, q in enumerate(d["Q"]))
         out["abs_P_over_Q"] = float(abs(Pz) / abs(Qz)) if Qz != 0 else float("inf")
-        out["reproduced"] = bool(x <= 0 and (not np.isfinite(abs(R)) or abs(R) ** 2 > 1.0 + 0.5 * float(SLACK)))
+        out["reproduced"] = bool(x <= 0 and (not np.isfinite(abs(R)) or abs(R) ** 2 > 1.0 + 0.5 * slack))
         return out
     if check_name.endswith("no_pole") or check_name.endswith("hurwitz_certificate"):
         poles = _poles_float(d)
